@@ -48,31 +48,78 @@ DOW = ["Mon", "Tue", "Wed", "Thu", "Fri", "Sat", "Sun"]
 MON = ["Jan", "Feb", "Mar", "Apr", "May", "Jun", "Jul", "Aug", "Sep", "Oct", "Nov", "Dec"]
 
 
-def gen_package(rng):
-    return rng.choice(PKG_FIRST) + "".join(rng.choice(PKG_REST) for _ in range(rng.randint(1, 8)))
+# size / threshold stress (notes/SIZE_STRESS.md): lengths, counts and numbers hit boundary neighbourhoods.
+# The abstract case (line classes, block structure from TLC) does not change; only the payload grows.
+LEN_B = [1, 2, 7, 8, 9, 15, 16, 17, 31, 32, 33, 63, 64, 65, 71, 72, 73, 79, 80, 81, 127, 128, 129, 255, 256, 257,
+         1023, 1024, 1025, 4095, 4096, 4097, 8191, 8192, 8193]
+CNT_B = [1, 2, 3, 9, 10, 11, 16, 17, 31, 32, 33, 99, 100, 101, 255, 256, 257]
+NUM_B = [0, 9, 10, 99, 100, 2 ** 15, 2 ** 16, 2 ** 31 - 1, 2 ** 31, 2 ** 32 - 1, 2 ** 32, 2 ** 63 - 1, 2 ** 63, 10 ** 18]
 
 
-def gen_version(rng):
+def pick_len(rng, lo=1, hi=8193):
+    """heavy-tailed: mostly the small boundaries, regularly the big ones, sometimes 64 Ki"""
+    r = rng.random()
+    pool = [n for n in LEN_B if lo <= n <= hi]
+    if r < 0.03 and hi >= 65537:
+        return rng.choice([65535, 65536, 65537])
+    if r < 0.55:
+        pool = [n for n in pool if n <= 130] or pool
+    elif r < 0.85:
+        pool = [n for n in pool if n <= 1025] or pool
+    return rng.choice(pool)
+
+
+def pick_count(rng, hi=257):
+    r = rng.random()
+    pool = [n for n in CNT_B if n <= hi]
+    if r < 0.6:
+        pool = [n for n in pool if n <= 33] or pool
+    return rng.choice(pool)
+
+
+def gen_package(rng, stress=False):
+    n = pick_len(rng, 2, 1025) if stress else rng.randint(2, 9)
+    return rng.choice(PKG_FIRST) + "".join(rng.choice(PKG_REST) for _ in range(n - 1))
+
+
+def gen_version(rng, stress=False):
     """any valid version per DESIGN D2 (outside its unspecified zone)"""
-    epoch = rng.random() < 0.25
+    epoch = rng.random() < (0.6 if stress else 0.25)
     up = rng.choice("0123456789" if rng.random() < 0.9 else VER_CH)
     extra = VER_CH + ("-" if rng.random() < 0.3 else "") + (":" if epoch and rng.random() < 0.3 else "")
-    up += "".join(rng.choice(extra) for _ in range(rng.randint(0, 6)))
-    v = ("%d:" % rng.choice([0, 1, 2, 10, 2021]) if epoch else "") + up
+    up += "".join(rng.choice(extra) for _ in range((pick_len(rng, 1, 1025) - 1) if stress else rng.randint(0, 6)))
+    if epoch:
+        e = rng.choice(NUM_B) if stress else rng.choice([0, 1, 2, 10, 2021])
+        v = ("0" * rng.choice([0, 0, 1, 3]) if stress else "") + "%d:" % e + up
+    else:
+        v = up
     if "-" in up or rng.random() < 0.6:
-        v += "-" + "".join(rng.choice("abz0123456789+.~") for _ in range(rng.randint(1, 5)))
+        v += "-" + "".join(rng.choice("abz0123456789+.~") for _ in range(pick_len(rng, 1, 257) if stress else rng.randint(1, 5)))
     return v
 
 
-def gen_dists(rng):
+def gen_dists(rng, stress=False):
+    if stress:
+        return " ".join(rng.choice(DISTS) + rng.choice(["", "", "-x", ".%d" % rng.choice(NUM_B)]) for _ in range(pick_count(rng, 101)))
     return " ".join(rng.sample(DISTS, rng.choice([1, 1, 1, 2, 3])))
 
 
-def gen_date(rng):
-    """a real calendar date (the weekday, when written, is the right one) in the documented form
-    [day-of-week, ]d[d] month yyyy h[h]:mm:ss +zzzz with a real-world zone"""
+def _boundary_times():
     import datetime
-    t = datetime.datetime(1995, 1, 1) + datetime.timedelta(seconds=rng.randrange(0, 43 * 365 * 86400))
+    D = datetime.datetime
+    return [D(1970, 1, 1), D(1999, 12, 31, 23, 59, 59), D(2000, 1, 1), D(2000, 2, 29, 12), D(2001, 9, 9, 1, 46, 40),
+            D(2038, 1, 19, 3, 14, 7), D(2038, 1, 19, 3, 14, 8), D(2100, 2, 28, 23, 59, 59), D(9999, 12, 31, 23, 59, 59),
+            D(1995, 1, 9, 9, 9, 9), D(2024, 2, 29), D(2010, 10, 10, 10, 10, 10)]
+
+
+def gen_date(rng, stress=False):
+    """a real calendar date (the weekday, when written, is the right one) in the documented form
+    [day-of-week, ]d[d] month yyyy h[h]:mm:ss +zzzz with a real-world zone; stress: boundary dates"""
+    import datetime
+    if stress and rng.random() < 0.7:
+        t = rng.choice(_boundary_times())
+    else:
+        t = datetime.datetime(1995, 1, 1) + datetime.timedelta(seconds=rng.randrange(0, 43 * 365 * 86400))
     day = rng.choice(["%d" % t.day, "%02d" % t.day])
     hour = rng.choice(["%d" % t.hour, "%02d" % t.hour])
     s = "%s %s %04d %s:%02d:%02d %s%04d" % (day, MON[t.month - 1], t.year, hour, t.minute, t.second, rng.choice("+-"),
@@ -82,11 +129,25 @@ def gen_date(rng):
     return s
 
 
-def gen_author(rng):
+def gen_text(rng, n):
+    """n characters of change / name payload (no D1 character, no leading / trailing blank)"""
+    if n <= 0:
+        return ""
+    alphabet = "abcdefghij klmnop qrstuvwxyz#:é中-.,;()<>=*"
+    t = "".join(rng.choice(alphabet) for _ in range(n))
+    return "x" + t[1:-1] + "y" if n > 1 else "x"
+
+
+def gen_author(rng, stress=False):
+    if stress:
+        return "%s <%s>" % (gen_text(rng, pick_len(rng, 1, 4097)).replace("<", "(").replace(">", ")"),
+                            rng.choice(MAILS) if rng.random() < 0.5 else gen_text(rng, pick_len(rng, 1, 1025)).replace("<", "").replace(">", "").replace(" ", ".") + "@x")
     return "%s <%s>" % (rng.choice(NAMES), rng.choice(MAILS))
 
 
-def gen_change_text(rng):
+def gen_change_text(rng, stress=False):
+    if stress:
+        return "  " + rng.choice(["* ", "", "  "]) + gen_text(rng, pick_len(rng, 1, 65537))
     n = rng.randint(1, 5)
     body = " ".join(rng.choice(WORDS) for _ in range(n))
     lead = rng.choice(["* ", "* ", "  ", "- ", "", "+ ", "\t", "    "])
@@ -105,30 +166,38 @@ def header(pkg, ver, dists, urg, comment, pairs):
     return s
 
 
-def gen_top_content(rng, canonical=False):
+def gen_top_content(rng, canonical=False, stress=False):
     if canonical:
         return dict(pkg="pkg", ver="1.0-1", dists="unstable", urg="low", comment="", pairs=[])
     pairs = []
     keys = set()
-    for _ in range(rng.choice([0, 0, 0, 1, 1, 2])):
-        k = rng.choice(KEYS)
-        if k.lower() in keys:
-            continue
-        keys.add(k.lower())
-        pairs.append((k, rng.choice(VALS)))
-    return dict(pkg=gen_package(rng), ver=gen_version(rng), dists=gen_dists(rng), urg=rng.choice(URG),
-                comment=rng.choice(COMMENTS) if rng.random() < 0.3 else "", pairs=pairs)
+    if stress:
+        n = rng.choice([0, 1, 2]) if rng.random() < 0.5 else pick_count(rng, 101)
+        for j in range(n):
+            pairs.append(("%s%d" % (rng.choice(["k", "XS-K", "x-y-", "Key"]), j), gen_text(rng, pick_len(rng, 1, 1025)).replace(",", ";")))
+    else:
+        for _ in range(rng.choice([0, 0, 0, 1, 1, 2])):
+            k = rng.choice(KEYS)
+            if k.lower() in keys:
+                continue
+            keys.add(k.lower())
+            pairs.append((k, rng.choice(VALS)))
+    comment = rng.choice(COMMENTS) if rng.random() < 0.3 else ""
+    if stress and rng.random() < 0.3:
+        comment = "(" + gen_text(rng, pick_len(rng, 1, 1025)).replace(",", ";") + ")"
+    return dict(pkg=gen_package(rng, stress), ver=gen_version(rng, stress), dists=gen_dists(rng, stress), urg=rng.choice(URG),
+                comment=comment, pairs=pairs)
 
 
 def top_text(c):
     return header(c["pkg"], c["ver"], c["dists"], c["urg"], c["comment"], c["pairs"])
 
 
-def conc_line(rng, cls, canonical=False, uid=None, empty_blank=False):
+def conc_line(rng, cls, canonical=False, uid=None, empty_blank=False, stress=False):
     """-> (text, content).  content: dict for header lines (what the block must expose; for the
     defective header kinds what a tolerant reader keeps), (author, date) for detailed trailers."""
     if cls == "TopOK":
-        c = gen_top_content(rng, canonical)
+        c = gen_top_content(rng, canonical, stress)
         return top_text(c), c
     if cls in ("TopBadKV", "TopDupKey", "TopBadUrg"):
         c = gen_top_content(rng, canonical)
@@ -169,9 +238,9 @@ def conc_line(rng, cls, canonical=False, uid=None, empty_blank=False):
     if cls == "Change":
         if canonical:
             return "  * change" + ("" if uid is None else " %d" % uid), None
-        return gen_change_text(rng), None
+        return gen_change_text(rng, stress), None
     if cls in END:
-        au, da = ("A B <a@b.c>", "Mon, 01 Jan 2001 10:00:00 +0000") if canonical else (gen_author(rng), gen_date(rng))
+        au, da = ("A B <a@b.c>", "Mon, 01 Jan 2001 10:00:00 +0000") if canonical else (gen_author(rng, stress), gen_date(rng, stress))
         return " -- %s%s%s" % (au, "  " if cls == "EndOK" else " ", da), (au, da)
     if cls == "EndNoDetails":
         return (" --" if canonical else rng.choice([" --", " -- ", " --  ", " --\t"])), None
@@ -208,6 +277,8 @@ def conc_line(rng, cls, canonical=False, uid=None, empty_blank=False):
         return ("Old Changelog:" if canonical else rng.choice(["Old Changelog:", "old changelog:  "])), None
     if cls == "Old8":
         return ("1.0-1:" if canonical else rng.choice(["1.0-1:", "pkg", "2:1.0~rc1", "word:  ", "v1.2+x"])), None
+    if cls == "Junk" and stress and not canonical:
+        return rng.choice(["* ", "! ", "= ", " * "]) + gen_text(rng, pick_len(rng, 1, 65537)), None
     if cls == "Junk":
         return ("* unindented" if canonical else rng.choice(
             ["* unindented", " * one space only", "-- Joe <j@x>  Mon, 01 Jan 2001 10:00:00 +0000", "=====", "!!!",
@@ -217,11 +288,12 @@ def conc_line(rng, cls, canonical=False, uid=None, empty_blank=False):
     raise AssertionError(cls)
 
 
-def conc_text(rng, classes, canonical=False, empty_blank=False):
-    """empty_blank: blank lines are empty lines (the C04 domain); otherwise also ' ' and a tab"""
+def conc_text(rng, classes, canonical=False, empty_blank=False, stress=False):
+    """empty_blank: blank lines are empty lines (the C04 domain); otherwise also ' ' and a tab;
+    stress: payload sizes from the boundary lists of notes/SIZE_STRESS.md"""
     lines, contents = [], []
     for i, c in enumerate(classes):
-        t, k = conc_line(rng, c, canonical, uid=i + 1, empty_blank=empty_blank)
+        t, k = conc_line(rng, c, canonical, uid=i + 1, empty_blank=empty_blank, stress=stress)
         assert not any(ch in t for ch in D1), (c, t)
         lines.append(t)
         contents.append(k)
@@ -392,8 +464,40 @@ def fixpoint(cl, s, aea=None):
     return None
 
 
-def c15_laws(text, aea):
-    """the verdict observables of C15 for one text: -> (message or None, info dict)"""
+def repeat_laws(text, aea, rng):
+    """the same text parsed repeatedly, strict and lenient alternating, both allow_empty_author values,
+    in a random order: every lenient parse with the same setting must emit the same number of warnings
+    and build the same blocks, every strict parse must have the same outcome, and strict raises exactly
+    when lenient warns (per setting).  -> message or None"""
+    plan = [(a, st) for a in (aea, not aea) for st in (False, True)] * 2
+    rng.shuffle(plan)
+    seen = {}
+    for a, st in plan[:rng.choice([4, 6, 8])]:
+        o = construct(text, aea=a, strict=st)
+        if st:
+            obs = o.exc
+            if o.exc not in (None, "ChangelogParseError"):
+                return "strict constructor raised %s" % o.exc
+        else:
+            if o.exc:
+                return "lenient constructor raised %s" % o.exc
+            obs = (o.nwarn, blocks_of(o.cl))
+        if (a, st) in seen and seen[(a, st)] != obs:
+            return "parsing the same text again (allow_empty_author=%s, strict=%s) gives a different result: %r then %r" % (
+                a, st, seen[(a, st)] if st else seen[(a, st)][0], obs if st else obs[0])
+        seen[(a, st)] = obs
+    for a in (aea, not aea):
+        if (a, True) in seen and (a, False) in seen and (seen[(a, True)] is not None) != (seen[(a, False)][0] > 0):
+            return "strict %s but lenient emitted %d warning(s) (allow_empty_author=%s, repeated parses)" % (
+                "raised" if seen[(a, True)] else "returned", seen[(a, False)][0], a)
+    return None
+
+
+def c15_laws(text, aea, rng=None):
+    """the verdict observables of C15 for one text: -> (message or None, info dict).  rng: sometimes the
+    strict parse comes first, sometimes the whole protocol is repeated in random order"""
+    if rng is not None and rng.random() < 0.5:
+        construct(text, aea=aea, strict=True)
     len_ = construct(text, aea=aea, strict=False)
     info = dict(nwarn=len_.nwarn, fmt=None, nb=None)
     if len_.exc:
@@ -414,7 +518,10 @@ def c15_laws(text, aea):
             return "str() raised %s" % err[4:], info
         return None, info
     info["str"] = s
-    return fixpoint(len_.cl, s, aea), info
+    msg = fixpoint(len_.cl, s, aea)
+    if msg is None and rng is not None and rng.random() < 0.15:
+        msg = repeat_laws(text, aea, rng)
+    return msg, info
 
 
 def shape_of(cl):
@@ -424,7 +531,7 @@ def shape_of(cl):
 
 # ------------------------------------------------------------------ C04 verdict for one concretized case
 
-def c04_check(lines, contents, struct):
+def c04_check(lines, contents, struct, alive=None):
     """lines/contents: the concretized well-formed text; struct: the block structure TLC computed
     (which line is which block's header / change line / trailer).  -> None or a message"""
     from debian.changelog import Changelog
@@ -442,6 +549,8 @@ def c04_check(lines, contents, struct):
             return "str() failed: %s" % err
         i = next((i for i in range(min(len(s), len(text))) if s[i] != text[i]), min(len(s), len(text)))
         return "str() differs from the text at offset %d: %r vs %r" % (i, s[max(0, i - 20):i + 30], text[max(0, i - 20):i + 30])
+    if alive is not None:
+        alive.add(cl, "%d lines" % len(lines))
     blocks = list(cl)
     if len(blocks) != len(struct["bl"]):
         return "%d blocks parsed, %d written" % (len(blocks), len(struct["bl"]))
@@ -552,6 +661,326 @@ def apply_edit(cl, op, arg, how=0):
     return None
 
 
+# ------------------------------------------------------------------ formatting as part of the history
+
+ATTRS = {1: "package", 2: "version", 3: "distributions", 4: "urgency", 5: "author", 6: "date"}
+HIST_OPS = ("Fmt", "BSet", "BPair", "ChAppend", "ChInsert", "ChDelete", "AddTrailing", "NewBlockFull", "AddChange")
+
+
+def conc_hist_arg(rng, op, canonical=False, uid=0, stress=False):
+    """concrete argument of one call of a formatting history; op = [name, i, x]"""
+    name, i, x = op
+    if name == "Fmt":
+        return rng.randrange(3)                 # which formatting entry point
+    if name == "BSet":
+        if canonical:
+            return {1: "setpkg", 2: "3.0-%d" % uid, 3: "stable", 4: "high", 5: "S A%d <s@a.b>" % uid, 6: "Wed, 03 Jan 2001 10:00:00 +0000"}[x]
+        return {1: lambda: gen_package(rng, stress), 2: lambda: gen_version(rng, stress), 3: lambda: gen_dists(rng, stress),
+                4: lambda: rng.choice(URG), 5: lambda: gen_author(rng, stress), 6: lambda: gen_date(rng, stress)}[x]()
+    if name == "BPair":
+        return ["Hk%d" % uid, "v%d" % uid if canonical else (gen_text(rng, pick_len(rng, 1, 1025)).replace(",", ";") if stress else rng.choice(VALS))]
+    if name in ("ChAppend", "ChInsert", "AddChange"):
+        return ("  * added %d" % uid) if canonical else gen_change_text(rng, stress)
+    if name == "AddTrailing":
+        return ""
+    if name == "NewBlockFull":
+        c = gen_top_content(rng, canonical, stress)
+        if canonical:
+            c.update(pkg="newpkg", ver="2.0-%d" % uid)
+        au, da = ("N B <n@b.c>", "Tue, 02 Jan 2001 10:00:00 +0000") if canonical else (gen_author(rng, stress), gen_date(rng, stress))
+        return dict(package=c["pkg"], version=c["ver"], distributions=c["dists"], urgency=c["urg"], author=au, date=da)
+    if name == "ChDelete":
+        return None
+    raise AssertionError(op)
+
+
+def do_format(cl, i, how):
+    """one of the formatting entry points on the changelog (i = 0) or on block i -> (text, None) | (None, why)"""
+    import io
+    from debian.changelog import ChangelogCreateError
+    try:
+        tgt = cl if i == 0 else cl[i - 1]
+        if how % 3 == 1:
+            return bytes(tgt).decode("utf-8"), None
+        if how % 3 == 2 and i == 0:
+            f = io.StringIO()
+            cl.write_to_open_file(f)
+            return f.getvalue(), None
+        return str(tgt), None
+    except ChangelogCreateError:
+        return None, "unformattable"
+    except Exception as e:
+        return None, "EXC:" + type(e).__name__
+
+
+def apply_hist(cl, op, arg, how=0):
+    """-> (error or None, formatted text or None).  Edits go through the BLOCK object (any block), the
+    in-place ones through the containers the block exposes."""
+    from debian.debian_support import Version
+    name, i, x = op
+    try:
+        if name == "Fmt":
+            t, err = do_format(cl, i, arg)
+            if t is None and err != "unformattable":
+                return err, None
+            return None, t
+        if name == "NewBlockFull":
+            cl.new_block(**arg)
+        elif name == "AddChange":
+            cl.add_change(arg)
+        else:
+            b = cl[i - 1]
+            if name == "BSet":
+                attr = ATTRS[x]
+                if i == 1 and how % 3 == 1:          # the first block also through the Changelog
+                    setattr(cl, attr, arg)
+                elif attr == "version" and how % 3 == 2:
+                    b.version = Version(arg)
+                else:
+                    setattr(b, attr, arg)
+            elif name == "BPair":
+                b.other_pairs[arg[0]] = arg[1]
+            elif name == "ChAppend":
+                b.changes().append(arg)
+            elif name == "ChInsert":
+                b.changes().insert(x - 1, arg)
+            elif name == "ChDelete":
+                del b.changes()[x - 1]
+            elif name == "AddTrailing":
+                b.add_trailing_line(arg)
+            else:
+                raise AssertionError(op)
+    except AssertionError:
+        raise
+    except Exception as e:
+        return "EXC:" + type(e).__name__, None
+    return None, None
+
+
+def expected_text(out, lines, contents, ops, args):
+    """concretization of the reference Format that TLC computed for the CURRENT document: `out` is its
+    line-token sequence [c, id, h]; tokens are positions in the parsed text (what the generator wrote
+    there) or 400 + 10 k + j / 200 + k (argument of call k).  Headers and trailers are written with the
+    generator's own grammar functions."""
+    def val(tok, field):
+        if tok >= 400:
+            k, j = divmod(tok - 400, 10)
+            a = args[k]
+            if ops[k][0] == "NewBlockFull":
+                return a[{0: "package", 1: "version", 2: "distributions", 3: "urgency", 5: "author", 6: "date"}[j]]
+            return a
+        if tok == -1:
+            return {"urg": "unknown"}.get(field)
+        c = contents[tok - 1]
+        if field in ("au", "da"):
+            return c[0 if field == "au" else 1]
+        return c[field]
+    res = []
+    for ln in out:
+        c, h = ln["c"], ln["h"]
+        if c in TOP:
+            if h[4] == -1:
+                comment, pairs = "", []
+            else:
+                comment, pairs = contents[h[4] - 1]["comment"], list(contents[h[4] - 1]["pairs"])
+            for tok in h[5:]:
+                pairs.append(tuple(val(tok, None)))
+            res.append(header(val(h[0], "pkg"), val(h[1], "ver"), val(h[2], "dists"), val(h[3], "urg"), comment, pairs))
+        elif c in END and ln["id"] == 0:
+            res.append(" -- %s%s%s" % (val(h[0], "au"), "  " if c == "EndOK" else " ", val(h[1], "da")))
+        else:
+            i = ln["id"]
+            res.append("" if i == 300 else args[i - 200] if i >= 200 else lines[i - 1])
+    return res
+
+
+def fields_of(cl):
+    return [(b.package, ver_str(b), b.distributions, b.urgency, (b.urgency_comment or "").strip(), list(b.other_pairs.items()),
+             list(b.changes()), b.author, b.date) for b in cl]
+
+
+def run_hist(rec, c04=True):
+    """replay one formatting history.  rec: lines, contents, aea, ops, args, hows, out (TLC's reference
+    output for the LAST call, a Fmt), what, tail (verbatim older entries appended to the text; no call
+    touches them).  Verdicts: no unexpected exception; the last output equals the concretized reference
+    Format of the current document; it is a normal form; (c04) parsing it strictly gives no warning and
+    exposes the same fields as the edited object.  -> None or a message"""
+    from debian.changelog import Changelog
+    tail = rec.get("tail") or []
+    text = join(rec["lines"] + tail)
+    try:
+        with warnings.catch_warnings():
+            warnings.simplefilter("error")
+            cl = Changelog(text, strict=True, allow_empty_author=rec["aea"])
+    except Exception as e:
+        return "strict parsing failed: %s: %s" % (type(e).__name__, e)
+    last = None
+    for k, (op, arg, how) in enumerate(zip(rec["ops"], rec["args"], rec["hows"])):
+        err, t = apply_hist(cl, op, arg, how)
+        if err:
+            return "call %d %s raised %s" % (k + 1, op, err[4:])
+        last = t
+    if not rec["ops"] or rec["ops"][-1][0] != "Fmt":
+        last, err = do_format(cl, 0, 0)
+        if last is None and err != "unformattable":
+            return "str() raised %s" % err[4:]
+    if last is None:
+        return "formatting failed (ChangelogCreateError) although every block is complete"
+    want = expected_text(rec["out"], rec["lines"], rec["contents"], rec["ops"], rec["args"])
+    what = rec["what"]
+    want_text = join(want + (tail if what == 0 else []))
+    if last != want_text:
+        i = next((i for i in range(min(len(last), len(want_text))) if last[i] != want_text[i]), min(len(last), len(want_text)))
+        return "after %s the formatted %s is not the text of the current document: differs at offset %d: %r vs expected %r" % (
+            [o[0] + (str(o[1]) if o[1] else "") for o in rec["ops"]], "changelog" if what == 0 else "block %d" % what,
+            i, last[max(0, i - 30):i + 40], want_text[max(0, i - 30):i + 40])
+    if what == 0:
+        msg = fixpoint(cl, last, rec["aea"])
+        if msg:
+            return msg
+        if c04:
+            try:
+                with warnings.catch_warnings():
+                    warnings.simplefilter("error")
+                    ref = Changelog(last, strict=True)
+            except Exception as e:
+                return "strict parsing of the formatted text failed: %s: %s" % (type(e).__name__, e)
+            if fields_of(ref) != fields_of(cl):
+                return "the blocks of the edited changelog and of a fresh parse of its text expose different data"
+    return None
+
+
+def stress_case(rng, classes, struct, mode, big=False):
+    """size-stressed concretization of a well-formed abstract text (the class sequence and TLC's block
+    structure stay what they are): mode 'payload' long names / versions / lines / many distributions and
+    pairs; 'lines' every change or blank line becomes a run of k lines; 'blocks' the block sequence is
+    repeated r times.  Length-independent by construction: a run of change lines takes the CChange
+    self-loop, a run of blank lines HBlank / CBlank, and block follows block as in the grammar (closed
+    LTS).  -> (lines, contents, struct')"""
+    reps = 1
+    if mode == "blocks":
+        reps = rng.choice([99, 100, 101, 255, 256, 257] + ([1000] if big else []))
+    lines, contents = [], []
+    out = {"ini": [], "bl": []}
+
+    def emit(cls, run):
+        ids = []
+        for _ in range(run):
+            t, k = conc_line(rng, cls, empty_blank=True, stress=(mode == "payload"))
+            lines.append(t)
+            contents.append(k)
+            ids.append(len(lines))
+        return ids
+
+    def run_of(cls):
+        if mode == "lines" and cls in ("Change", "Blank"):
+            return rng.choice([1000, 1001] if big and rng.random() < 0.2 else CNT_B[3:])
+        return 1
+    for i in struct["ini"]:
+        out["ini"] += emit(classes[i - 1], run_of(classes[i - 1]))
+    for _ in range(reps):
+        for b in struct["bl"]:
+            h = emit("TopOK", 1)[0]
+            ch = []
+            for i in b["ch"]:
+                ch += emit(classes[i - 1], run_of(classes[i - 1]))
+            e = emit("EndOK", 1)[0]
+            tr = []
+            for i in b["tr"]:
+                tr += emit(classes[i - 1], run_of(classes[i - 1]))
+            out["bl"].append({"h": [h] * 5, "ch": ch, "au": e, "da": e, "tr": tr})
+    return lines, contents, out
+
+
+HIST_NEG = [("BlockRenderCache", {"FormatIsCurrent"}), ("OlderBlocksMemo", {"FormatIsCurrent"})]
+
+
+def hist_cfg(edits=3, sep=1, lines=5, bug="none", emit=True):
+    return """CONSTANTS
+  Mode = "hist"
+  Classes = {}
+  AEAs = {FALSE}
+  MaxLines = %d
+  MaxBlocks = 2
+  MaxBody = 1
+  MaxLead = 0
+  MaxSep = %d
+  Budget = 0
+  MaxEdits = %d
+  Bug = "%s"
+  Emit = %s
+SPECIFICATION Spec
+INVARIANT BookkeepingOK
+INVARIANT HistFormattable
+INVARIANT FormatIsCurrent
+%s
+CHECK_DEADLOCK FALSE
+""" % (lines, sep, edits, bug, "TRUE" if emit else "FALSE", "INVARIANT NormalFormHist\nINVARIANT EmitHist" if emit else "")
+
+
+def replay_hist_cases(ctx, rng, cases, c04, nconc, nstress, alive=None):
+    """replay the formatting histories TLC enumerated (each ends in a formatting call and carries the
+    reference output for it).  nconc concretizations per case (the first canonical); nstress cases are
+    additionally replayed size-stressed: long arguments, and `tail` -- 100 / 1000 older entries appended
+    to the parsed text that no call touches (the reference output is then TLC's followed by them).
+    -> number replayed"""
+    n = 0
+    stress_every = max(1, len(cases) // max(1, nstress))
+    for ci, c in enumerate(cases):
+        variants = [("canonical", False)] + [("random", False)] * (nconc - 1)
+        if nstress and ci % stress_every == stress_every // 2 and c["ops"]:
+            variants.append(("stress", True))
+        for vi, (kind, stress) in enumerate(variants):
+            lines, contents = conc_text(rng, c["t"], canonical=(kind == "canonical"), empty_blank=True, stress=stress)
+            args = [conc_hist_arg(rng, op, canonical=(kind == "canonical"), uid=k, stress=stress) for k, op in enumerate(c["ops"])]
+            tail = []
+            if stress:
+                nt = rng.choice([99, 100, 101, 255, 256, 257, 1000])
+                for _ in range(nt):
+                    tl, _c = conc_text(rng, ["TopOK", "Blank", "Change", "Blank", "EndOK", "Blank"], empty_blank=True)
+                    tail += tl
+            rec = dict(kind="hist", lines=lines, contents=contents, aea=c["aea"], ops=c["ops"], args=args,
+                       hows=[rng.randrange(6) for _ in c["ops"]], out=c["out"], what=c["what"], tail=tail)
+            msg = run_hist(rec, c04=c04)
+            ctx.case_seen(("hist", tuple(c["t"]), json_key(c["ops"])), len(c["ops"]) > 1)
+            n += 1
+            if msg:
+                ctx.violation(rec, msg)
+                break
+        if len(ctx.violations) >= 5:
+            break
+        if alive is not None and ci % 97 == 0:
+            m = alive.recheck()
+            if m:
+                ctx.violation({"kind": "alive", "note": m}, m)
+                break
+    return n
+
+
+def json_key(x):
+    import json
+    return json.dumps(x, separators=(",", ":"))
+
+
+class Alive(object):
+    """earlier Changelog objects kept alive and re-verified after other objects were parsed / edited /
+    formatted: what an object shows must not depend on what happened to other objects"""
+
+    def __init__(self, limit=40):
+        self.items = []
+        self.limit = limit
+
+    def add(self, cl, note):
+        if len(self.items) < self.limit:
+            self.items.append((cl, fmt(cl), fields_of(cl), note))
+
+    def recheck(self):
+        for cl, f0, fl0, note in self.items:
+            if fmt(cl) != f0 or fields_of(cl) != fl0:
+                return "a Changelog object parsed earlier (%s) shows different text / fields after other objects were used" % (note,)
+        return None
+
+
 # ------------------------------------------------------------------ interning, projections for traces
 
 class Intern(object):
@@ -638,49 +1067,108 @@ def record_parse_trace(lines, aea, wf, doc_every=0):
     return dict(kind="parse", aea=aea, wf=wf, lines=evs, text=list(lines))
 
 
-def record_edit_trace(rng, lines, aea, nops):
-    """parse `lines`, then nops random editing calls with D3 arguments; after each: formattable?,
-    fixpoint law, interned blocks"""
-    it = Intern()
-    evs = [line_event(it, l) for l in lines]
-    o = construct(join(lines), aea=aea) if lines else None
-    if lines and o.exc:
-        return None
-    if lines:
-        cl = o.cl
-    else:
-        from debian.changelog import Changelog
-        cl = Changelog()
-    t = dict(kind="edit", aea=aea, lines=evs, bl0=proj_blocks(it, cl), ops=[], text=list(lines), calls=[])
-    for k in range(nops):
-        ops = [op for op in EDIT_OPS if op.startswith("NewBlock") or len(cl) > 0]
-        op = rng.choice(ops)
+def _start(lines, aea):
+    from debian.changelog import Changelog
+    if not lines:
+        return Changelog()
+    o = construct(join(lines), aea=aea)
+    return None if o.exc else o.cl
+
+
+def gen_call(rng, cl, wf, stress=False):
+    """one random call of an editing / formatting history on the current object: a Changelog-level
+    editing call, a call on ANY block through the block object, an in-place container edit, or
+    str(block).  -> dict(op, i, x, arg, how, fobs, fhow)"""
+    n = len(cl)
+    names = ["NewBlockFull"] + ([] if wf else ["NewBlockEmpty"])
+    if n:
+        names += ["AddBlank", "AddChange", "SetPackage", "SetVersion", "SetDistributions", "SetUrgency", "SetAuthor", "SetDate"]
+        names += ["BSet", "BSet", "BSet", "BRest", "BRest", "ChAppend", "ChInsert", "ChDelete", "AddTrailing", "AddTrailing", "Fmt"]
+    op = rng.choice(names)
+    i = x = 0
+    if op in EDIT_OPS:
         arg = conc_edit(rng, op)
-        how = rng.randrange(6)
-        t["calls"].append([op, arg, how])
-        t["ops"].append(edit_event(it, cl, op, arg, how))
-    return t
+        if wf and op == "AddBlank":
+            arg = ""
+    else:
+        i = rng.randint(1, n) if rng.random() < 0.7 else n          # any block, often the oldest
+        nch = len(cl[i - 1].changes())
+        if op == "BSet":
+            x = rng.randint(1, 6)
+        elif op == "ChInsert":
+            x = rng.randint(1, nch + 1)
+        elif op == "ChDelete":
+            if nch == 0:
+                op, x = "ChAppend", 0
+            else:
+                x = rng.randint(1, nch)
+        arg = conc_hist_arg(rng, ["BPair" if op == "BRest" else op, i, x], uid=rng.randrange(10 ** 6), stress=stress)
+        if op == "BRest":
+            arg[0] = "Hk%d" % rng.randrange(4)       # sometimes an existing key: the value is replaced in place
+        if op in ("ChAppend", "ChInsert") and rng.random() < 0.2:
+            arg = ""
+    return dict(op=op, i=i, x=x, arg=arg, how=rng.randrange(6), fobs=(op == "Fmt" or rng.random() < 0.6), fhow=rng.randrange(3))
 
 
-def edit_event(it, cl, op, arg, how):
-    err = apply_edit(cl, op, arg, how)
+def call_event(it, cl, c):
+    """perform one call on the real object and describe it for TLC"""
+    op, i, x, arg = c["op"], c["i"], c["x"], c["arg"]
+    out_text = None
+    if op in EDIT_OPS:
+        err = apply_edit(cl, op, arg, c["how"])
+    else:
+        err, out_text = apply_hist(cl, ["BPair" if op == "BRest" else op, i, x], arg, c["how"])
     if op == "NewBlockFull":
         v = [it(arg["package"]), it(arg["version"]), it(arg["distributions"]), it.urg(arg["urgency"]),
-             it.rest(arg["urgency_comment"], list((arg["other_pairs"] or {}).items())), it(arg["author"]), it(arg["date"]), it("")]
+             it.rest(arg.get("urgency_comment"), list((arg.get("other_pairs") or {}).items())), it(arg["author"]), it(arg["date"]), it("")]
     elif op == "NewBlockEmpty":
         v = [it("")]
+    elif op == "BRest":
+        b = cl[i - 1]
+        v = [it.rest(b.urgency_comment, list(b.other_pairs.items()))]       # other_pairs as the object shows them now
+    elif op in ("Fmt", "ChDelete"):
+        v = [0]
+    elif op in ("ChAppend", "ChInsert"):
+        v = [it(arg), 1 if arg == "" else 0]       # by construction '' or a change line
+    elif op == "BSet":
+        v = [it.urg(arg) if x == 4 else it(arg)]
     else:
         v = [it.urg(arg) if op == "SetUrgency" else it(arg)]
-    e = dict(op=op, v=v, ok=err is None, fmt=False, nf=True, bl=[])
+    e = dict(op=op, i=i, x=x, v=v, ok=err is None, fobs=bool(c["fobs"]), fmt=False, nf=True, out=[], bl=[])
     if err is None:
-        s, ferr = fmt(cl)
-        e["fmt"] = s is not None
-        if s is None:
-            e["ok"] = ferr == "unformattable"                     # any other exception of str() is a violation
-        else:
-            e["nf"] = fixpoint(cl, s) is None
+        if c["fobs"]:
+            tgt = i if op == "Fmt" else 0
+            if op == "Fmt":
+                s, ferr = out_text, (None if out_text is not None else "unformattable")
+            else:
+                s, ferr = do_format(cl, 0, c["fhow"])
+            e["fmt"] = s is not None
+            if s is None:
+                e["ok"] = ferr == "unformattable"                     # any other exception of str() is a violation
+            else:
+                e["out"] = [line_event(it, l) for l in s.split("\n")[:-1]]
+                if not s.endswith("\n") and s:
+                    e["out"].append(dict(c="Junk", v=-5, h=[]))      # cannot happen: every formatted line is terminated
+                if tgt == 0:
+                    e["nf"] = fixpoint(cl, s) is None
         e["bl"] = proj_blocks(it, cl)
     return e
+
+
+def record_edit_trace(rng, lines, aea, nops, wf=False, stress=False):
+    """parse `lines`, then nops random calls (gen_call); formatting is part of the history: after a
+    call the changelog is formatted (str / bytes / write_to_open_file) only when the call says so"""
+    it = Intern()
+    evs = [line_event(it, l) for l in lines]
+    cl = _start(lines, aea)
+    if cl is None:
+        return None
+    t = dict(kind="edit", aea=aea, wf=wf, lines=evs, bl0=proj_blocks(it, cl), ops=[], text=list(lines), calls=[])
+    for k in range(nops):
+        c = gen_call(rng, cl, wf, stress)
+        t["calls"].append(c)
+        t["ops"].append(call_event(it, cl, c))
+    return t
 
 
 def rerecord(trace):
@@ -690,17 +1178,12 @@ def rerecord(trace):
     it = Intern()
     lines = trace["text"]
     evs = [line_event(it, l) for l in lines]
-    if lines:
-        o = construct(join(lines), aea=trace["aea"])
-        if o.exc:
-            return None
-        cl = o.cl
-    else:
-        from debian.changelog import Changelog
-        cl = Changelog()
-    t = dict(kind="edit", aea=trace["aea"], lines=evs, bl0=proj_blocks(it, cl), ops=[], text=lines, calls=trace["calls"])
-    for op, arg, how in trace["calls"]:
-        t["ops"].append(edit_event(it, cl, op, arg, how))
+    cl = _start(lines, trace["aea"])
+    if cl is None:
+        return None
+    t = dict(kind="edit", aea=trace["aea"], wf=trace.get("wf", False), lines=evs, bl0=proj_blocks(it, cl), ops=[], text=lines, calls=trace["calls"])
+    for c in trace["calls"]:
+        t["ops"].append(call_event(it, cl, c))
     return t
 
 
@@ -796,8 +1279,13 @@ def corrupt_trace(t, how):
         return None
     if how == "nf":                      # verdict level: fixpoint law broken on a formattable, specified document
         for e in ops:
-            if e["fmt"] and e["nf"]:
+            if e["fobs"] and e["fmt"] and e["nf"] and e["op"] != "Fmt":
                 e["nf"] = False
+                return t
+    if how == "stale":                   # verdict level (wf): the output of an earlier state (an added line is missing)
+        for e in ops:
+            if e["fobs"] and e["fmt"] and len(e["out"]) > 3:
+                del e["out"][3]
                 return t
     if how == "order":
         for e in ops:
@@ -835,11 +1323,23 @@ def golden_traces():
     parse = dict(kind="parse", aea=False, wf=True, lines=lines)
     old = dict(h=[2, 3, 4, 5], ch=[6, 7, 11, 6], au=9, da=10)
     new = dict(h=[12, 13, 14, 15], ch=[], au=16, da=17)
-    edit = dict(kind="edit", aea=False, lines=[dict(c=e["c"], v=e["v"], h=list(e["h"])) for e in lines],
+
+    def L(v):
+        return dict(c="Blank" if v == 6 else "Change", v=v, h=[])
+    hd, tl = dict(c="TopOK", v=1, h=list(hdr)), dict(c="EndOK", v=8, h=[9, 10])
+    out1 = [hd, L(6), L(7), L(11), L(6), tl, L(6)]                      # text after add_change
+    outb = [hd, L(19), L(6), L(7), L(11), L(6), tl, L(6)]               # str(block 2) after an in-place insert
+
+    def op(name, v, bl, i=0, x=0, fobs=False, out=()):
+        return dict(op=name, i=i, x=x, v=v, ok=True, fobs=fobs, fmt=fobs, nf=True, out=list(out), bl=bl)
+    old2 = dict(old, ch=[19, 6, 7, 11, 6])
+    edit = dict(kind="edit", aea=False, wf=True, lines=[dict(c=e["c"], v=e["v"], h=list(e["h"])) for e in lines],
                 bl0=[dict(h=[2, 3, 4, 5], ch=[6, 7, 6], au=9, da=10)],
-                ops=[dict(op="AddChange", v=[11], ok=True, fmt=True, nf=True, bl=[old]),
-                     dict(op="NewBlockFull", v=[12, 13, 14, 15, -1, 16, 17, 6], ok=True, fmt=True, nf=True, bl=[new, old]),
-                     dict(op="SetVersion", v=[18], ok=True, fmt=True, nf=True, bl=[dict(new, h=[12, 18, 14, 15]), old])])
+                ops=[op("AddChange", [11], [old], fobs=True, out=out1),
+                     op("NewBlockFull", [12, 13, 14, 15, -1, 16, 17, 6], [new, old]),
+                     op("SetVersion", [18], [dict(new, h=[12, 18, 14, 15]), old]),
+                     op("ChInsert", [19], [dict(new, h=[12, 18, 14, 15]), old2], i=2, x=1),
+                     op("Fmt", [0], [dict(new, h=[12, 18, 14, 15]), old2], i=2, fobs=True, out=outb)])
     return [parse, edit]
 
 
@@ -853,11 +1353,11 @@ def golden_controls():
         controls.append(c)
         if how in ("strict", "warn", "content"):
             vcontrols.append(c)
-    for how in ("nf", "order"):
+    for how in ("nf", "stale", "order"):
         c = corrupt_trace(edit, how)
         assert c is not None, how
         controls.append(c)
-        if how == "nf":
+        if how in ("nf", "stale"):
             vcontrols.append(c)
     return controls, vcontrols
 
